@@ -104,7 +104,8 @@ CLAIMS = {
               "both printings back to the tree (RoundTrip) and that every parenthesis of the minimal printing is "
               "required (ParensRequired), and emits each tree with five texts (minimal/all parentheses x none/single/"
               "irregular multi-line spacing) and every token sequence up to the length bound over three alphabets with "
-              "RefParse's verdict; the real parser.Parse must return exactly that tree, or reject where the reference "
+              "RefParse's verdict, and every sentence of three families with one token deleted, doubled or swapped with "
+              "its neighbour (near misses); the real parser.Parse must return exactly that tree, or reject where the reference "
               "rejects. Bounded-exhaustive over trees and token sequences is the right level: a changed binding power "
               "or associativity alters only the pairings it affects, all of which are enumerated.",
               "DESIGN.md section 6 C11", "TLA+ reference grammar (printer + precedence-climbing parser); TLC-enumerated trees and token sequences parsed for real"),
@@ -116,7 +117,8 @@ CLAIMS = {
               "alone (LocInv), that every token's location is the position of its first rune (TokenLocInv), and that the "
               "machine yields what the reference assigns on all literals and layouts (Agrees, QuoteInverts). Every text "
               "is then given to the real lexer.Lex and parser.Parse: token kinds, byte-exact values, positions and literal "
-              "values must be the specified ones. Bounded-exhaustive over values x spellings x layouts is the right "
+              "values must be the specified ones (on the family of number spellings followed by a continuation the machine's "
+              "token kinds and values are verdicts too). Bounded-exhaustive over values x spellings x layouts is the right "
               "level: a misclassified spelling or a wrongly decoded escape affects only the values it concerns.",
               "DESIGN.md section 6 C12", "TLA+ lexer machine + lexical reference; TLC invariants; every enumerated text lexed and parsed for real"),
     "C13": _c("model_checking",
@@ -143,7 +145,8 @@ CLAIMS = {
               "Resolve.tla states Go's selector rule (shallowest depth, ambiguity, method sets by receiver kind, exported "
               "names) over struct shapes with embedded structs; TLC enumerates every legal shape up to the member bound in "
               "every declaration order, checks ShadowingIsShallowest, and emits for each shape and name what the rule "
-              "says. The shapes are written out as Go types, built against /repo and populated; the rule is first "
+              "says (plus eight map environment shapes: named or not, interface{} or int elements, with or without a method). "
+              "The shapes are written out as Go types, built against /repo and populated; the rule is first "
               "compared with Go's own resolution (reflect) on every name, then the real checker's verdict, the real "
               "run-time lookup, the value a call returns (a method and a function-valued field of the same name return "
               "different values) and the generated documentation are compared with each other and with the rule.",
